@@ -111,7 +111,7 @@ func (P) Generate(g *core.Gen) {
 	cs = append(cs, txTestCases("tx_invalid.json", false)...)
 	every := g.N(10, 1)
 	cs = append(cs, taprootRefCases(every, int(g.Seed%uint64(every)))...)
-	cs = append(cs, mutateVectors(r.Fork(), cs, g.N(1, 6))...)
+	cs = append(cs, mutateVectors(r.Fork(), cs, g.N(2, 6))...)
 	// generated programs
 	t0 := time.Now()
 	tick := func(what string) {
